@@ -152,6 +152,18 @@ fn scenes() -> Vec<Scene> {
 			build: |ibs| stream_scene(ibs, 0.75),
 		},
 		Scene {
+			name: "streaming sound, rate 0.3, finite: the whole sound incl. the interpolator's ring-out after its last (non-zero) frame",
+			exact: true,
+			long_only: false,
+			build: |ibs| stream_scene(ibs, 0.3),
+		},
+		Scene {
+			name: "streaming sound, rate 1.7, finite",
+			exact: true,
+			long_only: false,
+			build: |ibs| stream_scene(ibs, 1.7),
+		},
+		Scene {
 			name: "nested tracks with volumes",
 			exact: true,
 			long_only: false,
@@ -358,10 +370,13 @@ fn stream_scene(ibs: usize, rate: f64) -> Built {
 	pacer::set_mode(pacer::Mode::Pacer);
 	let mut m = rig::manager(SR, ibs, rig::caps(4), MainTrackBuilder::new());
 	let first = pacer::count();
-	let frames: Vec<Frame> = (0..37).map(|i| Frame::new(noise(i), noise(i + 5))).collect();
+	// (rates 0.3 and 1.7: a short finite stream that ends inside the compared rendering, last frame non-zero)
+	let finite = rate == 0.3 || rate == 1.7;
+	let n = if rate == 0.3 { 9 } else if rate == 1.7 { 61 } else { 37 };
+	let frames: Vec<Frame> = (0..n).map(|i| Frame::new(noise(i), noise(i + 5))).collect();
 	let (dec, stats) = ScriptedDecoder::new(frames, SR, vec![3, 1, 4], 2);
 	let mut d = StreamingSoundData::from_decoder(dec).playback_rate(rate);
-	if rate != 1.0 {
+	if rate != 1.0 && !finite {
 		d = d.loop_region(region(2, 30));
 	}
 	let h = m.play(d).map_err(|_| ()).unwrap();
